@@ -58,6 +58,9 @@ def run(ctx, rep):
     # `?expr` / `?(expr)` / redundant parentheses: a parenthesised alternative must not take a prefix of an unparenthesised
     # sentence (PEG commits to it), nor shadow another alternative as a whole
     from rules import c06
+    # a range check that applies to the integer spelling of a number only (or to the float spellings only) separates
+    # spellings of one number
+    c06.r6(ctx, Shared(rep, {"C06-R6": "C13-R8"}, lender="C06"))
     c06.r2(ctx, Shared(rep, {"C06-R2": "C13-R7"}, lender="C06",
                        only_keys=["choice|filter_selector|", "choice|paren_expr|", "choice|atom_expr|", "choice|logical_expr",
                                   "dead|filter_selector|", "dead|paren_expr|", "dead|atom_expr|", "dead|logical_expr", "dead-alternatives"]), res)
